@@ -18,7 +18,7 @@ def mc_conc(tag, threads, maxops, spt, drop=(), openers=("o1", "o2"), timeout=15
         f.write("  Threads = {%s}\n  MaxOps = %d\n  MaxSessPerThread = %d\n  RbPool = 2\n  WithRollback = TRUE\n" %
                 (", ".join('"%s"' % t for t in threads), maxops, spt))
         f.write("  Openers = {%s}\n  Drop = {%s}\n" % (", ".join('"%s"' % o for o in openers), ", ".join('"%s"' % d for d in drop)))
-        f.write("INVARIANTS SnapshotReads Exclusion WritersSerialize NoLostCommit AtMostOneHandle NobodyWritesUnlocked\n")
+        f.write("INVARIANTS SnapshotReads Exclusion WritersSerialize NoLostCommit AtMostOneHandle NobodyWritesUnlocked DroppedMeansFree\n")
     t0 = time.time()
     rc, out = C.run_tlc("NomtConc.tla", cfg, tag="conc" + tag, timeout=timeout, nworkers=min(10, C.workers()))
     states, gen = C.tlc_stats(out)
@@ -41,7 +41,7 @@ def design_level(pid, tier, violations):
             violations.append(dict(prop=pid, replay=p, what="NomtConc violated at design level (deadlock=%s)" % r["deadlock"]))
     # guards must be load-bearing
     mut = {}
-    for g in (["writer-excludes-readers", "root-check"] if pid == "C15" else ["unlock-after-drain"]):
+    for g in (["writer-excludes-readers", "root-check"] if pid == "C15" else ["unlock-after-drain", "join-abandoned-worker"]):
         m = mc_conc("%s_mut_%s" % (pid, g.replace("-", "")), ["t1", "t2"], 3, 1, drop=(g,), openers=("o1", "o2"))
         mut[g] = not m["ok"]
     dead = [g for g, c in mut.items() if not c]
